@@ -57,16 +57,26 @@ def trace(src, k=5, kinds=('local_tick', 'peer_tick', 'peer_tick_restarted', 'rp
     core.set_instance_state(local, S.RUNNING)
     core.context.local_status.times.update(c0, CLOCK[0].t, CLOCK[0].t, -1)
     # Master and Supvisors state: known Master in a working state, or none yet
-    working = src.pick_flag('master_in_working_state')
+    # (the Master may be the watched peer itself: once it is FAILED nobody is the Master any more, so it is never
+    # fenced on the strength of its own last state)
+    who = src.pick('master', ['local-in-working-state', 'none', 'the-peer-in-working-state'])
+    working = who == 'local-in-working-state'
+    peer_is_master = who == 'the-peer-in-working-state'
     if working:
         adapter.plant_fsm_state(core, F.OPERATION)
         adapter.plant_peer_state_modes(core, local, master_identifier=local)
+    elif peer_is_master:
+        adapter.plant_fsm_state(core, F.OPERATION)
     else:
         adapter.plant_fsm_state(core, F.SYNCHRONIZATION)
     core.options.synchro_options = [__import__('supvisors.ttypes', fromlist=['x']).SynchronizationOptions.USER]
     # the peer starts in any state of its life cycle, last heard `since0` local ticks ago
     pstate = src.pick('peer_state', ['STOPPED', 'CHECKING', 'CHECKED', 'RUNNING'])
+    src.assume(pstate == 'RUNNING' or not peer_is_master)
     core.set_instance_state(peer, S[pstate])
+    if peer_is_master:
+        adapter.plant_peer_state_modes(core, local, master_identifier=peer)
+        adapter.plant_peer_state_modes(core, peer, state=F.OPERATION, master_identifier=peer)
     rc0 = src.int('peer_counter', 0, 100000)
     since = src.int('since0', 0, 721)
     src.assume(since <= T)        # otherwise it would already have been declared FAILED (induction hypothesis)
@@ -91,13 +101,18 @@ def trace(src, k=5, kinds=('local_tick', 'peer_tick', 'peer_tick_restarted', 'rp
         n_before = len(rec.instances)
         if kind == 'local_tick':
             since = since + 1
+            # who is the Master, as this instance knows it before the tick (after the loss of a Master that was the peer
+            # the local instance, alone, becomes the Master itself)
+            pre_master = src.conc(core.state_modes.master_identifier)
+            master_working = pre_master == local and core.fsm.state.name in ('DISTRIBUTION', 'OPERATION',
+                                                                               'CONCILIATION', 'ELECTION')
             core.tick()
             after = core.context.instances[peer].state.name
             if before in G.ACTIVE:
                 overdue = since > T
                 if overdue:
                     src.reach('overdue')
-                    iso = fence and working
+                    iso = fence and master_working
                     exp = 'ISOLATED' if iso else 'STOPPED'
                     src.check('silent-peer-invalidated-by-this-tick', after == exp, sig=f'{before}->{exp}',
                               after=after, since=since, T=T)
